@@ -2306,6 +2306,45 @@ func (e *Exec) badTyped(kind int) []byte {
 	}
 }
 
+// badTypedAny: kinds 0-3 as badTyped; 4-12 cover every other request whose body can fail to decode
+// although the frame's envelope (type, timestamp) is fine: an invalid UTF-8 string, a malformed
+// packed list or an invalid sub-message in a field >= 3. (Requests made of integers and byte
+// strings only cannot fail to decode once the envelope has.) module != "": the message belongs to
+// a module - it reaches the module's decoder only from a connection that is in a session and when
+// the module is loaded; otherwise it is dropped.
+func (e *Exec) badTypedAny(kind int) (b []byte, module string) {
+	if kind%13 < 4 {
+		return e.badTyped(kind % 13), ""
+	}
+	ts := e.reqTS()
+	env := func(t int32) []byte {
+		b, _ := proto.Marshal(&hagallpb.Msg{Type: hagallpb.MsgType(t), Timestamp: ts})
+		return b
+	}
+	badString := func(field byte) []byte { return []byte{field<<3 | 2, 0x01, 0xc0} }
+	badSub := func(field byte) []byte { return []byte{field<<3 | 2, 0x02, 0x0d, 0x01} }
+	switch kind % 13 {
+	case 4: // SIGNED_LATENCY_REQUEST, wallet address (4) not UTF-8
+		return append(env(TSignedLatencyReq), badString(4)...), ""
+	case 5: // CUSTOM_MESSAGE, packed participant ids (3) with an unterminated varint
+		return append(env(TCustom), 0x1a, 0x01, 0x80), ""
+	case 6: // ENTITY_COMPONENT_TYPE_GET_ID_REQUEST, name (3) not UTF-8
+		return append(env(TGetIDReq), badString(3)...), ""
+	case 7: // RECEIPT_REQUEST, receipt (3) not UTF-8
+		return append(env(TReceiptReq), badString(3)...), ""
+	case 8: // vikja ENTITY_ACTION_REQUEST, entity action (3) not a valid sub-message
+		return append(env(TActionReq), badSub(3)...), "vikja"
+	case 9: // odal ASSET_INSTANCE_ADD_REQUEST, asset id (4) not UTF-8
+		return append(env(TAssetReq), badString(4)...), "odal"
+	case 10: // dagaz QUAD_SAMPLE, samples (4) holds an invalid quad
+		return append(env(TQuadSample), badSub(4)...), "dagaz"
+	case 11: // dagaz GET_GROUND_PLANE_REQUEST, ray (3) invalid
+		return append(env(TGroundReq), badSub(3)...), "dagaz"
+	default: // dagaz GET_REGION_REQUEST, min (3) invalid
+		return append(env(TRegionReq), badSub(3)...), "dagaz"
+	}
+}
+
 func (e *Exec) doHostile(mc *MConn, st Step, req uint32) {
 	h, ok := e.D.(interface{ Inner() Driver })
 	var hd Hostile
@@ -2333,8 +2372,18 @@ func (e *Exec) doHostile(mc *MConn, st Step, req uint32) {
 		e.collect()
 		e.expectEnded(mc, "C08,C06", "a text frame")
 	case OpBadTyped:
+		b, module := e.badTypedAny(int(st.Count))
+		if module != "" && (!mc.joined() || !e.Cfg.has(module)) {
+			// never reaches a decoder: dropped, nothing happens
+			e.label("bad_typed_module_frame_dropped")
+			e.D.SendBytes(mc.Slot, b)
+			e.collect()
+			e.unexpectedEnd(mc, "C08,C04")
+			return
+		}
 		e.label("bad_typed_frame")
-		e.D.SendBytes(mc.Slot, e.badTyped(int(st.Count)))
+		e.label(fmt.Sprintf("bad_typed_kind_%d", int(st.Count)%13))
+		e.D.SendBytes(mc.Slot, b)
 		e.collect()
 		e.expectEnded(mc, "C08,C06", "a frame whose body does not decode")
 	case OpBurstBad:
